@@ -4,7 +4,7 @@ from common import *  # noqa: F401,F403
 RULE = ("GeneratorKnotVector.bezier/integer/uniform/random/weight for degree 0..6, npts up to 60 (quick) / 400 (thorough), cls in "
         "{int, float, Fraction}; shift / scale / normalize on random valid vectors (Fraction and float); basis-function and curve "
         "invariance under u -> s*u + a.  Non-trivial: npts > degree + 1; distinct = distinct (generator, arguments)."
-        " Also: one KnotVector object inspected and evaluated before in-place shift/scale/normalize/convert; far exact translations (1e6..1e12); the basis over exact generated vectors evaluated after their int / float twins.")
+        " Also: one KnotVector object inspected and evaluated before in-place shift/scale/normalize/convert; far exact translations (1e6..1e12); the basis over exact generated vectors evaluated after their int / float twins; the reparametrisation applied in place to the knot vector of a copy / deepcopy of a curve or basis (the original must stay, the copy must be the same function of u).")
 EXPLANATION = ("L2: generator output vs the model (exact for Fraction/int, 1e-12 for float with the interval ends compared exactly); L3: degree, "
                "npts, simple interior knots, spacing, exact [0,1] limits, preserved multiplicities and the affine-invariance identity evaluated "
                "exactly on the real objects.")
@@ -190,6 +190,42 @@ def run_case(ctx, case):
                 if pt_canon(c1(u)) != pt_canon(c2(s * u + a)):
                     rec.violation("curve is not invariant under reparametrisation", case, u=str(u))
                     break
+            # the same reparametrisation the way a user does it: copy the object, map the copy's knot vector in place
+            import copy as _copy
+            W = rand_weights(ctx["rng"], n, ctx["rng"].choice(["none", "pos"]))
+            us = params_for(ctx["rng"], U, extra=1)
+            for what, mk, cp in (("copy(curve)", lambda: make_curve(U, P, W), _copy.copy),
+                                 ("deepcopy(curve)", lambda: make_curve(U, P, W), _copy.deepcopy),
+                                 ("copy(function)", lambda: _mkfunc(U, W), _copy.copy),
+                                 ("deepcopy(function)", lambda: _mkfunc(U, W), _copy.deepcopy)):
+                orig = mk()
+                ref = [pt_canon(orig(u)) for u in us]
+                r = impl(lambda: cp(orig))
+                l3(rec, "affine-on-a-copy")
+                rec.count("affine", what)
+                if r[0] != "ok":
+                    rec.violation("%s raised" % what, case, observed=r[1])
+                    continue
+                dup = r[1]
+                r = impl(lambda: (dup.knotvector.scale(s), dup.knotvector.shift(a)))
+                if r[0] != "ok":
+                    rec.violation("scale/shift of the knot vector of %s raised" % what, case, observed=r[1])
+                    continue
+                if [frac(x) for x in orig.knotvector] != list(U):
+                    rec.violation("mapping the knot vector of %s reparametrised the original object too" % what, case,
+                                  observed=ser([frac(x) for x in orig.knotvector]))
+                    continue
+                got = impl(lambda: ([pt_canon(dup(s * u + a)) for u in us], [pt_canon(orig(u)) for u in us]))
+                if got[0] != "ok" or got[1][0] != ref or got[1][1] != ref:
+                    rec.violation("%s mapped by u -> s*u + a is not the same function of u (or the original changed)" % what, case,
+                                  observed=str(got)[:300])
+
+
+def _mkfunc(U, W):
+    f = Function(list(U))
+    if W is not None:
+        f.weights = list(W)
+    return f
 
 
 def run(ctx):
